@@ -4,6 +4,7 @@ package main
 
 import (
 	"go/types"
+	"strconv"
 
 	iso639_3 "github.com/barbashov/iso639-3"
 	"unicode/utf8"
@@ -286,6 +287,26 @@ func initEnvStubs() {
 		cell := new(Value)
 		*cell = st
 		return Ptr{P: cell}
+	})
+	// asm.numSize uses math.Log2 (floating point, out of reach of the solver):
+	// replaced by its contract 1,2,3,4 bytes for n < 2^8, 2^16, 2^24, else;
+	// the contract is validated natively (cmd/numsizesweep)
+	reg("git.defalsify.org/vise.git/asm.numSize", func(ex *Exec, fn *ssa.Function, args []Value, caller *Frame) Value {
+		ts := ex.ts
+		n := args[0].(*Term)
+		c := func(v uint64) *Term { return ts.Const(64, v) }
+		return ts.Ite(ts.Ult(n, ts.Const(32, 1<<8)), c(1), ts.Ite(ts.Ult(n, ts.Const(32, 1<<16)), c(2), ts.Ite(ts.Ult(n, ts.Const(32, 1<<24)), c(3), c(4))))
+	})
+	reg("strconv.FormatUint", func(ex *Exec, fn *ssa.Function, args []Value, caller *Frame) Value {
+		n := args[0].(*Term)
+		base := ex.concreteInt(args[1], "FormatUint base")
+		if n.IsConst() {
+			return ex.strLit(strconv.FormatUint(n.K, base))
+		}
+		if base != 10 {
+			ex.unsupported("FormatUint of a symbolic number in base %d", base)
+		}
+		return ex.formatArgT('d', "", n, nil, 0)
 	})
 	reg("encoding/hex.EncodeToString", func(ex *Exec, fn *ssa.Function, args []Value, caller *Frame) Value {
 		sl := args[0].(Slice)
